@@ -96,7 +96,9 @@ def systems_of(table):
     return allsys, withf, tags
 
 
-def project(font, intern, layout=False):
+def project(font, intern, layout=False, tolerant=False):
+    """`tolerant` (the merged font): a glyph that cannot be drawn or has no metrics is recorded as such (outline
+    identity of a sentinel, advance -1) instead of raising -- TLC then names the failing clause"""
     from fontTools.pens.recordingPen import DecomposingRecordingPen
 
     names = list(font.getGlyphOrder())
@@ -106,10 +108,20 @@ def project(font, intern, layout=False):
     out, adv = [], []
     hmtx = font["hmtx"].metrics
     for n in names:
-        pen = DecomposingRecordingPen(gs)
-        gs[n].draw(pen)
-        out.append(intern(_canon(pen.value)))
-        adv.append(int(hmtx[n][0]))
+        try:
+            pen = DecomposingRecordingPen(gs)
+            gs[n].draw(pen)
+            out.append(intern(_canon(pen.value)))
+        except Exception as e:
+            if not tolerant:
+                raise
+            out.append(intern(("<undrawable>", type(e).__name__)))
+        if n in hmtx:
+            adv.append(int(hmtx[n][0]))
+        elif tolerant:
+            adv.append(-1)
+        else:
+            raise KeyError(n)
     gsub = font["GSUB"].table if "GSUB" in font else None
     gpos = font["GPOS"].table if "GPOS" in font else None
     sys_all, gsys, gtags = systems_of(gsub)
@@ -143,20 +155,82 @@ def project(font, intern, layout=False):
     return af, info
 
 
-def ignorable(cp):
-    from .c07 import default_ignorable
+# Default_Ignorable_Code_Point (Unicode DerivedCoreProperties)
+_DI = [(0x00AD, 0x00AD), (0x034F, 0x034F), (0x061C, 0x061C), (0x115F, 0x1160), (0x17B4, 0x17B5), (0x180B, 0x180F),
+       (0x200B, 0x200F), (0x202A, 0x202E), (0x2060, 0x206F), (0x3164, 0x3164), (0xFE00, 0xFE0F), (0xFEFF, 0xFEFF),
+       (0xFFA0, 0xFFA0), (0xFFF0, 0xFFF8), (0x1BCA0, 0x1BCA3), (0x1D173, 0x1D17A), (0xE0000, 0xE0FFF)]
 
+
+def default_ignorable(cp):
+    return any(a <= cp <= b for a, b in _DI)
+
+
+def ignorable(cp):
+    """characters the merger never disambiguates (named deviation IgnorableNotDisambiguated)"""
     return default_ignorable(cp) or cp == 0x25CC
 
 
 def probe_ok(cp):
-    """code points whose shaping is the font's business only (DESIGN section 9 rule 5), and not a mark"""
-    from .c07 import probe_char_ok
-
-    if not probe_char_ok(cp):
+    """code points whose shaping is the font's business only (DESIGN section 9 rule 5): not default-ignorable, no
+    canonical decomposition, no algorithmic (Hangul) composition, not a surrogate / NUL / separator, not a mark"""
+    if cp <= 0 or cp > 0x10FFFF or 0xD800 <= cp <= 0xDFFF or default_ignorable(cp):
+        return False
+    if 0x1100 <= cp <= 0x11FF or 0xAC00 <= cp <= 0xD7A3 or cp in (0x2028, 0x2029, 0x25CC):
+        return False
+    d = unicodedata.decomposition(chr(cp))
+    if d and not d.startswith("<"):
         return False
     cat = unicodedata.category(chr(cp))
     return cat[0] in "LNPS" or cat == "Co"
+
+
+def text_ok(cps):
+    s = "".join(map(chr, cps))
+    return unicodedata.normalize("NFC", s) == s and unicodedata.normalize("NFD", s) == s
+
+
+def rule_seqs(L, rng, limit):
+    """glyph sequences that trigger the rules of a projected layout: every rule's input sequence, with and without
+    its context (one representative glyph per coverage position)"""
+    seqs = []
+    pick = lambda s: rng.choice(s) if s else None
+    for tb in ("gsub", "gpos"):
+        for lk in L[tb]["lookups"]:
+            ty = lk["ty"]
+            for st in lk["st"]:
+                if ty in ("sub1", "sub2", "sub3", "pos1"):
+                    seqs += [[e[0]] for e in st["m"]]
+                elif ty == "sub4":
+                    seqs += [list(comps) for comps, _lig in st["l"]]
+                elif ty == "ctx":
+                    for r in st["r"]:
+                        i = [pick(s) for s in r["i"]]
+                        seqs.append([pick(s) for s in reversed(r["b"])] + i + [pick(s) for s in r["a"]])
+                        seqs.append(i)
+                elif ty == "rsub":
+                    for r in st["r"]:
+                        for e in r["m"][:4]:
+                            seqs.append([pick(s) for s in reversed(r["b"])] + [e[0]] + [pick(s) for s in r["a"]])
+                elif ty == "pos2":
+                    if st["f"] == 1:
+                        seqs += [[e[0], e[1]] for e in st["p"]]
+                    else:
+                        seqs += [[pick(e[0]), pick(e[1])] for e in st["c"][:40]]
+                elif ty == "curs":
+                    en = [e[0] for e in st["m"] if e[1]]
+                    seqs += [[e[0], pick(en)] for e in st["m"][:6] if e[2]]
+                elif ty in ("mkb", "mkm"):
+                    for b in st["bases"][:6]:
+                        seqs += [[b[0], m[0]] for m in st["marks"][:3]]
+                elif ty == "mkl":
+                    for l in st["ligs"][:6]:
+                        seqs += [[l[0], m[0]] for m in st["marks"][:3]]
+    uniq, seen = [], set()
+    for s in seqs:
+        if s and None not in s and tuple(s) not in seen:
+            seen.add(tuple(s))
+            uniq.append(s)
+    return uniq if len(uniq) <= limit else rng.sample(uniq, limit)
 
 
 def feature_dict(tags, only=None):
@@ -168,7 +242,12 @@ def feature_dict(tags, only=None):
 
 
 def hb_rows(shaper, text, feats, sc, la):
-    res = shaper.shape(codepoints=list(text), features=feats, script=str(sc), language=str(la))
+    try:
+        res = shaper.shape(codepoints=list(text), features=feats, script=str(sc), language=str(la))
+    except MemoryError:
+        # HarfBuzz gave up (its operation / buffer limits: e.g. a contextual lookup that keeps re-entering):
+        # recorded as a row naming glyph id -1, which no font has
+        return [[-1, 0, 0, 0, 0]]
     return [[int(g) + 1, int(xa), int(ya), int(xo), int(yo)] for g, xa, ya, xo, yo in res]
 
 
@@ -188,8 +267,6 @@ def probe_systems(af):
 
 def choose_texts(af, info, font, rng, limit, exhaustive):
     """probe texts (code point lists) over the input's characters"""
-    from . import c07
-
     chars = [u for u, _g in af["cmap"] if probe_ok(u)]
     if not chars:
         return []
@@ -198,7 +275,7 @@ def choose_texts(af, info, font, rng, limit, exhaustive):
         return texts[:limit]
     texts = []
     if "L" in af:
-        seqs = c07.rule_glyph_seqs({"L": af["L"]}, rng, limit)
+        seqs = rule_seqs(af["L"], rng, limit)
         by_glyph = {}
         for u, g in af["cmap"]:
             if probe_ok(u):
@@ -212,7 +289,7 @@ def choose_texts(af, info, font, rng, limit, exhaustive):
         texts.append([rng.choice(chars) for _k in range(rng.randint(2, 3))])
     out, seen = [], set()
     for t in texts:
-        if tuple(t) not in seen and c07.text_ok(t):
+        if tuple(t) not in seen and text_ok(t):
             seen.add(tuple(t))
             out.append(t)
     return out[:limit]
@@ -331,14 +408,17 @@ def _run_case(case):
 
     # ---- the result, re-read from the saved bytes ---------------------------
     mfont = TTFont(io.BytesIO(mdata))
-    maf, minfo = project(mfont, intern, layout=False)
+    maf, minfo = project(mfont, intern, layout=False, tolerant=True)
     if minfo["cmap_problem"]:
         raise common.MachineryError("merged font's cmap: %s" % minfo["cmap_problem"])
+    # a cmap entry naming a glyph outside the glyph order is recorded as glyph 0 (never a valid glyph id)
+    cm_m, _p = unicode_cmap(mfont)
+    maf["cmap"] = [[int(u), minfo["gmap"].get(g, 0)] for u, g in sorted(cm_m.items())]
     raw = rawsfnt.parse(mdata).fonts[0]
     fmaxp = struct.unpack(">H", raw.tables[b"maxp"][4:6])[0]
     carried = "CFF " in mfont or ("post" in mfont and mfont["post"].formatType == 2)
     msh = hb.Shaper(mdata)
-    fnames = [msh.glyph_name(g) for g in range(msh.face.glyph_count)] if carried else []
+    fnames = [msh.glyph_name(g) or "" for g in range(msh.face.glyph_count)] if carried else []
     if dupnames:
         out["skips"].append("an input file carries non-unique glyph names (restored on save): names in the saved file not judged")
         fnames = []
